@@ -43,6 +43,10 @@ CLASS_SEEDS = [
     "u = DiscreteUniform(1, 3)\nx = u\nwhile true:\n    x = x + 1\nend\n",
     "k = Bernoulli(1/2)\ns = k\nx = 0\nwhile true:\n    x = x + 1 {1/2} x\nend\n",
     "u = 1 {1/2} 2\nx = 0\nc = 0\nwhile c == 0:\n    c = Bernoulli(1/2)\n    x = x + 1\nend\n",
+    # conditions over two finite variables with many value combinations but few distinct results (two dice)
+    "d = 1\nb = 1\nx = 0\nwhile true:\n    d = DiscreteUniform(1, 6)\n    b = DiscreteUniform(1, 6)\n    if d + b == 7:\n        x = x + 1\n    end\nend\n",
+    "d = 1\nb = 1\nx = 0\nwhile true:\n    b = d\n    d = DiscreteUniform(1, 6)\n    if d + b == 7:\n        x = x + 1\n    end\nend\n",
+    "d = 0\nb = 0\nx = 0\nwhile true:\n    d = DiscreteUniform(0, 5)\n    b = DiscreteUniform(0, 5)\n    if d == b:\n        x = x + 1\n    elif d > b:\n        x = x - 1\n    end\nend\n",
     # || / ! / elif chains
     "c = 0\nx = 0\ny = 0\nwhile true:\n    c = DiscreteUniform(0, 3)\n    if c == 0 || c == 3:\n        x = x + 1\n    elif !(c == 1):\n        y = y + 1\n    elif c >= 1:\n        y = y - 1\n    else:\n        x = 0\n    end\nend\n",
     # guard over two finite variables, location-scale draws
@@ -258,5 +262,23 @@ def cases(tier, seed):
 
 
 def run_case(case):
-    res = analyse_program_goals(case["input"]["text"], case["input"]["goals"], case["N"], refusal_is_violation=True)
+    from .. import polar
+    from ..pool import cpu_limit, CpuTimeout
+
+    text = case["input"]["text"]
+    res = analyse_program_goals(text, case["input"]["goals"], case["N"], refusal_is_violation=True)
+    # every condition of a class program is over finitely valued variables: none may be replaced by a coin with an unknown
+    # probability (`_probK`), which would make every result a partial one
+    if res.get("status") == "ok":
+        try:
+            with cpu_limit(30):
+                polar.reset_settings()
+                program = polar.normalize(polar.parse(text))
+            store = getattr(program, "abstracted_const_store", {}) or {}
+            if store:
+                res["violations"].append({"sub": "finite-condition-abstracted", "detail": {
+                    "program": text, "abstracted": {str(k): str(v) for k, v in store.items()}}})
+                res["status"] = "violation"
+        except (CpuTimeout, Exception):
+            pass
     return res
